@@ -184,3 +184,44 @@ Proof.
   destruct Hs as [Hs ->]. exists c'. split; [exact Hr|]. split; [exact Hs|exact Hok'].
 Qed.
 Print Assumptions receive_framed.
+
+(* ================= examples ================= *)
+
+(* the frame "null": json.Unmarshal leaves the zero reply, which the client takes for an empty reply *)
+Example receive_null_is_empty_reply :
+  fst (client_receive 4096 (mkConn [] [[110; 117; 108; 108; 0]])) = RvReply None false.
+Proof. vm_compute. reflexivity. Qed.
+
+Example receive_eof_partial :
+  fst (client_receive 4096 (mkConn [] [[123; 125]])) = RvEOF.
+Proof. vm_compute. reflexivity. Qed.
+
+Example receive_garbage :
+  fst (client_receive 4096 (mkConn [] [[123; 0]])) = RvDecodeErr.
+Proof. vm_compute. reflexivity. Qed.
+
+(* a reply {"parameters":{"a":1},"continues":true} split over three segments, cap 4 *)
+Definition exB_reply : bytes := encode_reply (Some (encode_value (JObj [([97], JNum [49])]))) true [].
+Example receive_split :
+  fst (client_receive 4 (mkConn [] [firstn 5 (frame exB_reply); firstn 9 (skipn 5 (frame exB_reply));
+                                     skipn 14 (frame exB_reply) ++ [123]]))
+  = RvReply (Some (encode_value (JObj [([97], JNum [49])]))) true.
+Proof. vm_compute. reflexivity. Qed.
+
+(* a standard error frame as the service writes it *)
+Example receive_std_error :
+  fst (client_receive 4096 (mkConn []
+        [frame (encode_reply (Some (std_params EMethodNotFound [70; 111; 111])) false (std_name EMethodNotFound))]))
+  = RvStdError EMethodNotFound [70; 111; 111].
+Proof. vm_compute. reflexivity. Qed.
+
+(* a standard error name with parameters of the wrong shape falls back to the untyped error *)
+Example receive_std_error_bad_params :
+  dispatch_error (std_name EMethodNotFound) (Some [91; 93]) = RvError (std_name EMethodNotFound) (Some [91; 93]).
+Proof. vm_compute. reflexivity. Qed.
+
+(* an error frame without parameters for a standard name: typed error with the empty string *)
+Example receive_std_error_no_params :
+  fst (client_receive 4096 (mkConn [] [frame (encode_reply None false (std_name EInvalidParameter))]))
+  = RvStdError EInvalidParameter [].
+Proof. vm_compute. reflexivity. Qed.
